@@ -522,7 +522,7 @@ func runC10(c *wk.Ctx) {
 			}
 			descr = "plugin schema"
 		} else {
-			if tricky := gen.TrickyShapes(); idx/4 < int64(len(tricky)) && idx%4 == 0 {
+			if tricky := gen.DescribableTrickyShapes(); idx/4 < int64(len(tricky)) && idx%4 == 0 {
 				shape = tricky[idx/4]
 			} else {
 				shape = gen.GenScope(r, cfg)
